@@ -10,7 +10,6 @@ import (
 	"go/parser"
 	"go/token"
 	"go/types"
-	"hash/fnv"
 	"os"
 	"path/filepath"
 	"sort"
@@ -69,7 +68,7 @@ func main() {
 	repo, out := os.Args[1], os.Args[2]
 	facts := map[string]string{}
 	files := map[string][]*ast.File{}
-	funcLists := map[string]string{}
+	funcLists := map[string]string{} // readable lists behind digest-valued facts
 	var api []string
 	fset := token.NewFileSet()
 	filepath.Walk(repo, func(path string, info os.FileInfo, err error) error {
@@ -164,30 +163,6 @@ func main() {
 				}
 			}
 		}
-		// every function and method declared in the package: a new helper is code the models do not mirror
-		var fns []string
-		for _, f := range fs {
-			for _, d := range f.Decls {
-				if fd, ok := d.(*ast.FuncDecl); ok {
-					name := fd.Name.Name
-					if r := recvName(fd); r != "" {
-						name = r + "." + name
-						// a pointer receiver can change the caller's object; a value receiver cannot
-						if _, ptr := fd.Recv.List[0].Type.(*ast.StarExpr); ptr {
-							name = "*" + name
-						}
-					}
-					fns = append(fns, name)
-				}
-			}
-		}
-		sort.Strings(fns)
-		// (a digest: the kernel compares these strings character by character; the names themselves go
-		// into a comment of the generated file)
-		hh := fnv.New64a()
-		hh.Write([]byte(strings.Join(fns, " ")))
-		facts["funcs:"+pkg] = fmt.Sprintf("n=%d fnv64a=%016x", len(fns), hh.Sum64())
-		funcLists["funcs:"+pkg] = strings.Join(fns, " ")
 		var gl []string
 		for g := range globals {
 			gl = append(gl, g)
@@ -195,8 +170,6 @@ func main() {
 		sort.Strings(gl)
 		facts["globals:"+pkg] = strings.Join(gl, " ")
 		writes := map[string]bool{}
-		reads := map[string]bool{}
-		pwrites := map[string]bool{}
 		for _, f := range fs {
 			for _, d := range f.Decls {
 				fd, ok := d.(*ast.FuncDecl)
@@ -261,48 +234,6 @@ func main() {
 						writes[name+":"+r] = true
 					}
 				}
-				// which package-level variables the function mentions at all (a new reader of, say, an
-				// exported limit or distribution makes the result depend on state the model ignores there)
-				ast.Inspect(fd.Body, func(n ast.Node) bool {
-					if id, ok := n.(*ast.Ident); ok && globals[id.Name] && !local[id.Name] {
-						reads[name+":"+id.Name] = true
-					}
-					return true
-				})
-				// writes through a parameter or the receiver: element, field or pointee assignments, and
-				// the in-place helpers of the standard library applied to them
-				params := map[string]bool{}
-				for _, fl := range append(append([]*ast.Field{}, fieldsOf(fd.Recv)...), fieldsOf(fd.Type.Params)...) {
-					for _, nm := range fl.Names {
-						params[nm.Name] = true
-					}
-				}
-				pnote := func(e ast.Expr, how string) {
-					if _, plain := e.(*ast.Ident); plain && how == "" {
-						return // reassigning the parameter variable itself is local
-					}
-					if r := root(e); r != "" && params[r] {
-						pwrites[name+":"+how+r] = true
-					}
-				}
-				ast.Inspect(fd.Body, func(n ast.Node) bool {
-					switch v := n.(type) {
-					case *ast.AssignStmt:
-						if v.Tok != token.DEFINE {
-							for _, l := range v.Lhs {
-								pnote(l, "")
-							}
-						}
-					case *ast.IncDecStmt:
-						pnote(v.X, "")
-					case *ast.CallExpr:
-						callee := strings.Join(strings.Fields(types.ExprString(v.Fun)), "")
-						if (callee == "copy" || strings.HasPrefix(callee, "sort.")) && len(v.Args) > 0 {
-							pnote(v.Args[0], callee+"@")
-						}
-					}
-					return true
-				})
 				ast.Inspect(fd.Body, func(n ast.Node) bool {
 					switch v := n.(type) {
 					case *ast.AssignStmt:
@@ -334,16 +265,23 @@ func main() {
 		}
 		sort.Strings(wl)
 		facts["globalwrites:"+pkg] = strings.Join(wl, " ")
-		for key, set := range map[string]map[string]bool{"reads:" + pkg: reads, "pwrites:" + pkg: pwrites} {
-			var l []string
-			for x := range set {
-				l = append(l, x)
-			}
-			sort.Strings(l)
-			hh := fnv.New64a()
-			hh.Write([]byte(strings.Join(l, " ")))
-			facts[key] = fmt.Sprintf("n=%d fnv64a=%016x", len(l), hh.Sum64())
-			funcLists[key] = strings.Join(l, " ")
+	}
+	// typed pass: per-property shape of the reachable code, and the constant dictionary
+	if len(os.Args) > 3 {
+		dictDir := ""
+		if len(os.Args) > 4 {
+			dictDir = os.Args[4]
+		}
+		sf, sl, err := shapePass(repo, os.Args[3], dictDir)
+		if err != nil {
+			fmt.Fprintln(os.Stderr, "shape pass:", err)
+			os.Exit(1)
+		}
+		for k, v := range sf {
+			facts[k] = v
+		}
+		for k, v := range sl {
+			funcLists[k] = v
 		}
 	}
 	var keys []string
